@@ -99,9 +99,74 @@ func keysOf(efs []expr.Effect) (regs map[string]bool, mems map[string]bool) {
 var csrKeyOf = map[uint16]string{}
 var csrNumOf = map[string]uint16{}
 
-func run(c *mon.Case) {
+// immediate enumeration: the immediate field of every mnemonic that has one is split
+// into 16 chunks; the quick tier runs one chunk per mnemonic-variant (chosen by the
+// seed), the thorough tier all of them, i.e. every 12-bit I/S/load immediate, every
+// branch offset, every shift amount, every CSR zimm, and for U/J formats every value of
+// the 12 most significant immediate bits (low bits random).
+const immChunks = 16
+
+func enumChunks(tier string) int {
+	if tier == "thorough" {
+		return immChunks
+	}
+	return 1
+}
+
+func nEnum(tier string) int { return len(pairs) * enumChunks(tier) }
+
+// immField returns the number of enumerated immediate values of a format and the
+// encoder of the i-th one.
+func immField(d refrv.Def) (int, func(w uint32, i int, r *rand.Rand) uint32) {
+	switch d.Fmt {
+	case refrv.FmtI, refrv.FmtLoad:
+		return 4096, func(w uint32, i int, _ *rand.Rand) uint32 { return refrv.EncImmI(w, int64(i)-2048) }
+	case refrv.FmtS:
+		return 4096, func(w uint32, i int, _ *rand.Rand) uint32 { return refrv.EncImmS(w, int64(i)-2048) }
+	case refrv.FmtB:
+		return 4096, func(w uint32, i int, _ *rand.Rand) uint32 { return refrv.EncImmB(w, 2*(int64(i)-2048)) }
+	case refrv.FmtU:
+		return 4096, func(w uint32, i int, r *rand.Rand) uint32 {
+			return refrv.EncImmU(w, int64(int32(uint32(i)<<20|uint32(r.Intn(256))<<12)))
+		}
+	case refrv.FmtJ:
+		return 4096, func(w uint32, i int, r *rand.Rand) uint32 {
+			return refrv.EncImmJ(w, (int64(i)-2048)<<9|int64(r.Intn(256))<<1)
+		}
+	case refrv.FmtShift:
+		return 64, func(w uint32, i int, _ *rand.Rand) uint32 { return w&^(63<<20) | uint32(i)<<20 }
+	case refrv.FmtCSRI:
+		return 32, func(w uint32, i int, _ *rand.Rand) uint32 { return w&^(31<<15) | uint32(i)<<15 }
+	}
+	return 0, nil
+}
+
+func enumCase(c *mon.Case) {
 	r := c.Rng
 	p := pairs[c.Idx%len(pairs)]
+	chunk := c.Idx / len(pairs)
+	if c.Quick() {
+		chunk = (int(c.Seed) + c.Idx) % immChunks
+	}
+	n, enc := immField(p.def)
+	if n == 0 {
+		return
+	}
+	lo, hi := chunk*n/immChunks, (chunk+1)*n/immChunks
+	for i := lo; i < hi; i++ {
+		i := i
+		oneCase(c, r, p.cfg, p.def, func(w uint32) uint32 { return enc(w, i, r)&^p.def.Mask | p.def.Match })
+		c.Count("enumerated_immediates", 1)
+	}
+}
+
+func run(c *mon.Case) {
+	if c.Idx < nEnum(c.Tier) {
+		enumCase(c)
+		return
+	}
+	r := c.Rng
+	p := pairs[(c.Idx-nEnum(c.Tier))%len(pairs)]
 	cfg := p.cfg
 	// the extension subset varies: any subset containing the definition's extension
 	if p.def.Ext != 'M' && r.Intn(3) == 0 {
@@ -111,7 +176,7 @@ func run(c *mon.Case) {
 		cfg.A = false
 	}
 	for sub := 0; sub < 40; sub++ {
-		oneCase(c, r, cfg, p.def)
+		oneCase(c, r, cfg, p.def, nil)
 	}
 }
 
@@ -125,9 +190,12 @@ func accessWidth(name string) int {
 	return 0
 }
 
-func oneCase(c *mon.Case, r *rand.Rand, cfg refrv.Cfg, d refrv.Def) {
+func oneCase(c *mon.Case, r *rand.Rand, cfg refrv.Cfg, d refrv.Def, force func(uint32) uint32) {
 	xlen := cfg.XLEN
 	w := rvgen.Word(r, d)
+	if force != nil {
+		w = force(w)
+	}
 	if sub, ok := refrv.Decode(cfg, w); !ok || sub.Name != d.Name {
 		return // generator produced a word of another definition (fixed bits); skip
 	}
@@ -358,14 +426,14 @@ func main() {
 	}
 	mon.Main(mon.Spec{
 		Prop: "C01",
-		Rule: "case = (configuration, instruction word, address, register file): for every mnemonic of both variants, operand fields from {0,1,2,31,aliased,random}, immediates from {0,+-1,min,max,boundaries,random}, every shift amount, CSR numbers {0,1,0x7ff,0x800,0xfff,...}, register contents from {0,1,-1,MIN,MAX,0x7f../0x80.. patterns,32-bit boundaries,random}, addresses {0,4,0x1000,2^31-4,2^32-4,2^32,2^63-4,2^64-4,random}, extension subset varied; non-trivial = the reference changes a register, memory, a CSR or jumps; distinct by (word,address,source register values). Every mnemonic-variant must reach non-trivial cases (fence/ecall/ebreak: accepted cases).",
+		Rule: "case = (configuration, instruction word, address, register file): for every mnemonic of both variants, operand fields from {0,1,2,31,aliased,random}, immediates from {0,+-1,min,max,boundaries,random}, every shift amount, CSR numbers {0,1,0x7ff,0x800,0xfff,...}, register contents from {0,1,-1,MIN,MAX,0x7f../0x80.. patterns,32-bit boundaries,random}, addresses {0,4,0x1000,2^31-4,2^32-4,2^32,2^63-4,2^64-4,random}, extension subset varied; plus the immediate enumeration: every 12-bit I/S/load immediate, branch offset, shift amount and CSR zimm of every mnemonic-variant (all in the thorough tier, one sixteenth chosen by the seed in the quick tier; U/J formats: every value of the 12 most significant immediate bits); non-trivial = the reference changes a register, memory, a CSR or jumps; distinct by (word,address,source register values). Every mnemonic-variant must reach non-trivial cases (fence/ecall/ebreak: accepted cases).",
 		Explanation: "oracle: the lifted effects are applied with the reference IR semantics (all operands evaluated in the pre-state, then applied in order) and the resulting x1..x31, instruction pointer, CSR and written memory bytes are compared with an independent RISC-V reference interpreter on the same pre-state; x0 must never appear; CSR number <-> register key must be a bijection over everything observed; Parse panics are violations",
 		Assumptions: []string{"refrv reference interpreter (written from the unprivileged spec)", "refir evaluator", "AMO/LR/SC only at naturally aligned addresses; accesses crossing 2^XLEN skipped"},
 		Cases: func(t string) int {
 			if t == "thorough" {
-				return len(pairs) * 8000
+				return nEnum(t) + len(pairs)*8000
 			}
-			return len(pairs) * 200
+			return nEnum(t) + len(pairs)*200
 		},
 		Floor: func(t string) int {
 			if t == "thorough" {
@@ -373,7 +441,7 @@ func main() {
 			}
 			return 500000
 		},
-		RequiredCounts: req,
+		RequiredCounts: append(req, "enumerated_immediates"),
 		Run:            run,
 	})
 }
